@@ -15,7 +15,7 @@ sed "s#=> /repo#=> $S/repo#" $H/go.mod > $S/go.mod; cp $H/go.sum $S/go.sum
 ( cd $H && go build -modfile=$S/go.mod -tags verif -o $S/bin/check ./cmd/check ) || { echo "$M: harness build failed"; exit 4; }
 cp /verif/known_findings.json $S/root/
 NEEDBIN=0; NEEDRACE=0
-for c in $CHECKS; do case $c in C08|C13|C14|C15|C18|C19) NEEDBIN=1;; C07) NEEDRACE=1;; esac; done
+for c in $CHECKS; do case $c in C08|C10|C13|C14|C15|C18|C19) NEEDBIN=1;; C07) NEEDRACE=1;; esac; done
 [ $NEEDBIN = 1 ] && ( cd $S/repo && go build -tags verif -o $S/bin/bazel-remote . )
 [ $NEEDRACE = 1 ] && ( cd $H && go build -race -modfile=$S/go.mod -tags verif -o $S/bin/check-race ./cmd/check )
 for c in $CHECKS; do
